@@ -288,10 +288,16 @@ func (b *builder) build(v ssa.Value) *Expr {
 		}
 		var alts []*Expr
 		seen := map[string]bool{}
-		for _, ed := range x.Edges {
+		for ei, ed := range x.Edges {
 			a := b.expr(ed)
+			// a variable known not to be nil on the way it comes in (the edge is only reached past the false side of `v == nil`)
+			// does not bring its "still unset" alternative along
+			nonNil := ei < len(x.Block().Preds) && nonNilAt(ed, x.Block().Preds[ei])
 			for _, aa := range a.Alts() {
 				if aa.Op == "loop" && aa.V == v {
+					continue
+				}
+				if nonNil && (aa.Op == "zero" || aa.Op == "const" && aa.Name == "nil") {
 					continue
 				}
 				k := aa.String()
@@ -3087,3 +3093,44 @@ func BuiltItems(e *Expr) ([]BuiltItem, bool) {
 
 // EnumResult: result i of fn is an enumeration verdict (a named integer type, a constant at every return).
 func (w *World) EnumResult(fn *ssa.Function, i int) bool { return fn != nil && w.enumResult(fn, i) }
+
+// nonNilAt: the SSA value x is known not to be nil whenever control is in block p: some dominator of p (p included) is
+// entered only through the side of a test `x == nil` / `x != nil` on which x is not nil.
+func nonNilAt(x ssa.Value, p *ssa.BasicBlock) bool {
+	switch x.Type().Underlying().(type) {
+	case *types.Slice, *types.Pointer, *types.Map, *types.Interface:
+	default:
+		return false
+	}
+	for d := p; d != nil; d = d.Idom() {
+		if len(d.Preds) != 1 {
+			continue
+		}
+		q := d.Preds[0]
+		iff, ok := q.Instrs[len(q.Instrs)-1].(*ssa.If)
+		if !ok || len(q.Succs) != 2 || q.Succs[0] == q.Succs[1] {
+			continue
+		}
+		bo, ok := iff.Cond.(*ssa.BinOp)
+		if !ok || bo.Op != token.EQL && bo.Op != token.NEQ {
+			continue
+		}
+		var other ssa.Value
+		if isNilConst(bo.Y) {
+			other = bo.X
+		} else if isNilConst(bo.X) {
+			other = bo.Y
+		}
+		if other != x {
+			continue
+		}
+		notNilSide := 1 // x == nil: the false side
+		if bo.Op == token.NEQ {
+			notNilSide = 0
+		}
+		if q.Succs[notNilSide] == d {
+			return true
+		}
+	}
+	return false
+}
